@@ -75,6 +75,13 @@ func runC14(r *run) {
 			g := newProgGen(rg.fork(uint64(95000 + k)))
 			emit(caseT{"variants", (&world{}).args(src, g.context(0))})
 		}
+		// tags that collect their body before writing it, failing in the middle of the body
+		for k, wr := range [][2]string{{"{% spaceless %}", "{% endspaceless %}"}, {"{% filter upper %}", "{% endfilter %}"}, {"{% macro zm() %}", "{% endmacro %}{{ zm() }}"}, {"{% for c in lst %}{% ifchanged %}", "{% endifchanged %}{% endfor %}"},
+			{"{% for c in el %}never{% empty %}", "{% endfor %}"}, {"{% for c in lst %}", "{% empty %}<li>nothing</li>{% endfor %}"}, {"{% block zb %}", "{% endblock %}"}, {"{% with q=1 %}{% spaceless %}", "{% endspaceless %}{% endwith %}"}} {
+			g := newProgGen(rg.fork(uint64(96000 + k)))
+			src := "<div>" + wr[0] + "<b>{{ tick() }}</b> <i class=\"c{{ tick() }}\">x</i>\n <u>{{ tick() }}</u> " + wr[1] + "</div>{{ tick() }}"
+			emit(caseT{"variants", (&world{}).args(src, g.context(0))})
+		}
 		// output pieces of every size around the usual buffer sizes, written by one node
 		// (a text, an include, an ifchanged body, a macro result) after a short start
 		for k, size := range []int{1, 63, 64, 255, 256, 511, 512, 513, 1023, 1024, 4095, 4096, 4097, 9000, 70000} {
